@@ -177,6 +177,34 @@ func (c *Check) fixedC11() []*plan.Plan {
 		p.Tasks = [][]plan.Op{ops}
 		out = append(out, p)
 	}
+	// (2b) soak history: many different pages, then a page with thousands of distinct links, then the first pages again
+	{
+		p := c.newPlan("history", run, 1, "bubble")
+		run++
+		var ops []plan.Op
+		nd := 24
+		for i := 0; i < nd; i++ {
+			d := gen.Document(uint64(0x50AD + i*137))
+			id := fmt.Sprintf("d%d", i)
+			p.Docs = append(p.Docs, plan.NewDoc(id, d.Bytes, d.Origin))
+			u := d.URL
+			if u == "" {
+				u = fmt.Sprintf("http://site%d.example.com/a/b/page-%d", i%5, i)
+			}
+			p.Options = append(p.Options, optWithURL("o"+id, u, uint(i%2), 0))
+			ops = append(ops, plan.Op{Op: "Reader", Doc: id, Opt: "o" + id})
+		}
+		ix := gen.IndexPage(5000)
+		p.Docs = append(p.Docs, plan.NewDoc("dix", ix.Bytes, ix.Origin))
+		p.Options = append(p.Options, optWithURL("oix", ix.URL, 0, 0))
+		ops = append(ops, plan.Op{Op: "Reader", Doc: "dix", Opt: "oix"})
+		for i := 0; i < 6; i++ {
+			id := fmt.Sprintf("d%d", i)
+			ops = append(ops, plan.Op{Op: "Reader", Doc: id, Opt: "o" + id})
+		}
+		p.Tasks = [][]plan.Op{ops}
+		out = append(out, p)
+	}
 	// (3) delivery schedules
 	for di, d := range docs {
 		if di >= 6 {
@@ -370,7 +398,11 @@ func (c *Check) randC11(r *gen.Rand, run int, seed uint64) *plan.Plan {
 
 // ---------------------------------------------------------------- C13
 
-func (c *Check) c13Variant(run int, seed uint64, d gen.GenDoc, url string, algo uint, skip bool, flags uint, sink string, stalls [][2]int64, entry string) *plan.Plan {
+func (c *Check) c13Variant(run int, seed uint64, d gen.GenDoc, url string, algo uint, skip bool, flags uint, sink string, stalls [][2]int64, entry string, rps ...*plan.ReaderPlan) *plan.Plan {
+	var rp *plan.ReaderPlan
+	if len(rps) > 0 {
+		rp = rps[0]
+	}
 	p := c.newPlan("options", run, seed, "bubble")
 	p.Docs = []plan.Doc{plan.NewDoc("d0", d.Bytes, d.Origin)}
 	o := plan.Opt{ID: "o0", Flags: flags, Algo: algo, Skip: skip}
@@ -404,7 +436,13 @@ func (c *Check) c13Variant(run int, seed uint64, d gen.GenDoc, url string, algo 
 		} else {
 			p.Options[0].URL = nil
 		}
-		p.Tasks = [][]plan.Op{{{Op: "URL", Doc: "d0", Opt: "o0", URL: req, Net: &plan.NetPlan{Status: 200, CType: &ct, StallAt: -1}}}}
+		np := &plan.NetPlan{Status: 200, CType: &ct, StallAt: -1, Body: rp}
+		if rp != nil && run%3 == 0 {
+			np.CLen = i64(int64(len(d.Bytes))) // an honest Content-Length: net/http then hands over the last bytes together with io.EOF
+		}
+		p.Tasks = [][]plan.Op{{{Op: "URL", Doc: "d0", Opt: "o0", URL: req, Net: np}}}
+	case "Reader":
+		p.Tasks = [][]plan.Op{{{Op: "Reader", Doc: "d0", Opt: "o0", Reader: rp}}}
 	default:
 		p.Tasks = [][]plan.Op{{{Op: entry, Doc: "d0", Opt: "o0"}}}
 	}
@@ -439,10 +477,19 @@ func (c *Check) fixedC13() []*plan.Plan {
 					stalls = [][2]int64{{int64(50 + 37*k), 1_000_000_137}, {int64(900 + 11*k), 3_600_000_000_731}}
 				}
 				entry := "Apply"
-				if k%4 == 3 {
+				var rp *plan.ReaderPlan
+				switch k % 4 {
+				case 3:
 					entry = "URL"
+					if k%8 == 7 {
+						rp = &plan.ReaderPlan{Chunks: []int{4096}, FaultAt: len(d.Bytes), FaultKind: "eof-with-data"}
+					}
+				case 1:
+					entry = "Reader"
+					// legal stream behaviours: the last bytes together with io.EOF, dribble, (0,nil) reads
+					rp = []*plan.ReaderPlan{{FaultAt: len(d.Bytes), FaultKind: "eof-with-data"}, {Chunks: []int{1}, FaultAt: -1}, {Chunks: []int{512}, ZeroReads: []int{0, 1, 4}, FaultAt: len(d.Bytes), FaultKind: "eof-with-data"}}[(k/4)%3]
 				}
-				out = append(out, c.c13Variant(run, uint64(di), d, u, algo, skip, flags, sink, stalls, entry))
+				out = append(out, c.c13Variant(run, uint64(di), d, u, algo, skip, flags, sink, stalls, entry, rp))
 				run++
 				k++
 			}
@@ -480,7 +527,11 @@ func (c *Check) randC13(r *gen.Rand, run int, seed uint64) *plan.Plan {
 	}
 	algo := uint(r.Intn(2))
 	entry := gen.Pick(r, []string{"Apply", "Apply", "Reader", "File", "URL"})
-	return c.c13Variant(run, seed, d, url, algo, r.P(1, 5), flags, sink, stalls, entry)
+	var rp *plan.ReaderPlan
+	if (entry == "Reader" || entry == "URL") && r.P(2, 3) {
+		rp = gen.RandReader(r, len(d.Bytes), false, false)
+	}
+	return c.c13Variant(run, seed, d, url, algo, r.P(1, 5), flags, sink, stalls, entry, rp)
 }
 
 // ---------------------------------------------------------------- C01
@@ -598,6 +649,38 @@ func (c *Check) fixedC01() []*plan.Plan {
 			p.Tasks = [][]plan.Op{ops}
 			out = append(out, p)
 		}
+	}
+	// soak: one long-lived process distilling many different pages with many distinct URLs, then a page
+	// with thousands of distinct links — whatever survives a call (caches, pools, tables with a capacity)
+	// is pushed past its limits
+	{
+		p := c.newPlan("soak", run, 0, "bubble")
+		run++
+		var ops []plan.Op
+		nd := 30
+		if c.tier == "thorough" {
+			nd = 120
+		}
+		for i := 0; i < nd; i++ {
+			d := gen.Document(uint64(0x50AC + i*131))
+			if i%5 == 4 {
+				d = gen.PagerDoc(uint64(0x50AC + i))
+			}
+			id := fmt.Sprintf("d%d", i)
+			p.Docs = append(p.Docs, plan.NewDoc(id, d.Bytes, d.Origin))
+			u := d.URL
+			if u == "" {
+				u = fmt.Sprintf("http://site%d.example.com/a/b/page-%d", i%7, i)
+			}
+			p.Options = append(p.Options, optWithURL("o"+id, u, uint(i%2), 0))
+			ops = append(ops, plan.Op{Op: "Reader", Doc: id, Opt: "o" + id})
+		}
+		ix := gen.IndexPage(6000)
+		p.Docs = append(p.Docs, plan.NewDoc("dix", ix.Bytes, ix.Origin))
+		p.Options = append(p.Options, optWithURL("oix0", ix.URL, 0, 0), optWithURL("oix1", ix.URL, 1, 0))
+		ops = append(ops, plan.Op{Op: "Reader", Doc: "dix", Opt: "oix0"}, plan.Op{Op: "Reader", Doc: "dix", Opt: "oix1"}, plan.Op{Op: "Reader", Doc: "d0", Opt: "od0"})
+		p.Tasks = [][]plan.Op{ops}
+		out = append(out, p)
 	}
 	// streams and files: every device behaviour once
 	{
